@@ -472,6 +472,8 @@ class Parser(IdlVisitor):
         extern_path = self.visit(ctx.filepath())
         if extern_path:
             try:
+                # go through the file reader so that the file is listed under `parsed.external_types`
+                self.file_reader.read_external_type(extern_path.path)
                 self.resolver.load_external(extern_path.path)
             except InputParsingException as e:
                 self.errors.append(e)
